@@ -319,15 +319,13 @@ func (c *carry) state() string {
 // there on the reference run is periodic with exact windows), or -1.
 func (c *carry) periodicFrom(W, limit int) int {
 	cp := &carry{es: append([]carryEntry(nil), c.es...)}
-	states := make([]string, 0, limit+W+1)
+	states := make([]string, 0, 4*W)
 	for i := 0; i <= limit+W; i++ {
 		states = append(states, cp.state())
-		cp.next()
-	}
-	for t := 0; t <= limit; t++ {
-		if states[t] == states[t+W] {
-			return t
+		if i >= W && states[i-W] == states[i] {
+			return i - W
 		}
+		cp.next()
 	}
 	return -1
 }
